@@ -372,14 +372,18 @@ def check_conditionals(ctx, fi):
     DIVIDED by its own projection onto the separator, `Z / Z.project(S)`.  With an empty separator the projection is the 0-dimensional table
     holding the total, so `Z / self.total` is the same thing (the marginals sum to self.total: C01); the bare `Z` is a table of counts, and
     every answer served through that edge comes out `total` times too large."""
-    src = getattr(fi, 'original', fi)
+    src = fi                      # the normalised method: helpers added later are inlined
     stores = []
-    # the table: filled under a pair key inside `for Ci in N: for Cj in N[Ci]:` (the loop over tree neighbours)
+    # the table: filled under a pair key inside `for Ci in N: for Cj in N[Ci]:` / `for Ci, adj in N.items(): for Cj in adj:` (tree neighbours)
     tables = set()
     for o_ in ast.walk(src.node):
-        if isinstance(o_, ast.For) and isinstance(o_.target, ast.Name):
+        if isinstance(o_, ast.For):
             for i_ in o_.body:
-                if isinstance(i_, ast.For) and isinstance(i_.iter, ast.Subscript) and U(i_.iter.slice) == o_.target.id and U(i_.iter.value) == U(o_.iter):
+                by_index = isinstance(o_.target, ast.Name) and isinstance(i_, ast.For) and isinstance(i_.iter, ast.Subscript) \
+                    and U(i_.iter.slice) == o_.target.id and U(i_.iter.value) == U(o_.iter)
+                by_items = isinstance(o_.target, ast.Tuple) and len(o_.target.elts) == 2 and isinstance(i_, ast.For) and isinstance(o_.iter, ast.Call) \
+                    and isinstance(o_.iter.func, ast.Attribute) and o_.iter.func.attr == 'items' and U(i_.iter) == U(o_.target.elts[1])
+                if by_index or by_items:
                     for a_ in ast.walk(i_):
                         if isinstance(a_, ast.Assign) and len(a_.targets) == 1 and isinstance(a_.targets[0], ast.Subscript) and isinstance(a_.targets[0].value, ast.Name) \
                                 and isinstance(a_.targets[0].slice, ast.Tuple) and len(a_.targets[0].slice.elts) == 2:
